@@ -301,6 +301,12 @@ def ifChain (selPol : Pol) (sel d : BV4) (steps : List (Nat × BV4)) : FE BV4 :=
 def ifPrio (d : BV4) (steps : List (BV4 × BV4)) : BV4 :=
   steps.foldl (fun x (ca : BV4 × BV4) => ifAssign ca.1 x ca.2) d
 
+/-- `sim::parseBit(char)` (`BitVectorState.cpp:153-162`), the value of `Bit(char)`: only `0 1 x X` are accepted;
+    `VALUE = (c != '0')`, `DEFINED = (c != 'x' && c != 'X')` -/
+def parseBit (c : Char) : FE BV4 :=
+  if c == '0' || c == '1' || c == 'x' || c == 'X' then pure [B4.mk (c != '0') (c != 'x' && c != 'X')]
+  else .error "value == '0' || value == '1' || value == 'x' || value == 'X'"
+
 /-- digit of a base-`2^bps` literal: `(value, defined)`; any character outside `0-9a-fA-F` (the grammar only allows `x`/`X`
     besides the digits) clears DEFINED (`BitVectorState.cpp:199-215`) -/
 def litDigit (bps : Nat) (c : Char) : BV4 :=
